@@ -11,7 +11,7 @@ RULE = (
     "closed form - Cholesky-whitened residual rows over the free coordinates solved with numpy.linalg.lstsq. Non-trivial = loop, multi-edge, "
     "landmark edge with non-zero offset, >= 2 fixed, or initial guess > 1e3 away."
 )
-BUDGET = {"quick": 16 * 250, "thorough": 16 * 10000}
+BUDGET = {"quick": 16 * 1500, "thorough": 16 * 10000}
 TOLERANCES = {
     "positions": "1e-7*(1+|x*|_inf)*max(1, cond(A)^2*1e-6)",
     "final_chi2": "relative 1e-8 + 1e-9*|Omega|max*(1+S)^2 floor, against the reference chi2 at the closed-form optimum and at the returned state",
@@ -30,7 +30,7 @@ def strategy_(g):
         conds=(1.0, 1e2, 1e4),
         noise=(g.choice([0.05, 1.0, 10.0]),) * 2,
         pert=(0.3, 0.3),
-        features=("parallel", "reversed", "permute", "ids", "multifixed", "rn_lm_offsets"),
+        features=("parallel", "reversed", "permute", "ids", "multifixed", "rn_lm_offsets", "quat-signs"),
     )
     P = g.choice([0.0, 1.0, 1.0, 1e3, 1e6])
     ff = case["fix_first"]
